@@ -1,4 +1,5 @@
 import sys
+# unmarshalBool: null / empty keeps the previous bool
 p=sys.argv[1]+'/marshal.go'; s=open(p).read()
 old="""func unmarshalBool(info TypeInfo, data []byte, value interface{}) error {
 """
